@@ -3,8 +3,11 @@ import json
 import os
 
 from .. import alpha
+from .. import destruct
+from .. import foldform
 from .. import inline
 from .. import tree as T
+from .. import unroll
 
 VERIF = os.path.dirname(os.path.dirname(os.path.dirname(os.path.abspath(__file__))))
 
@@ -54,6 +57,27 @@ class Ctx:
             prog.inlined_away = set(facts[crate].get("_inlined_away") or [])
             for fn, cs in (facts[crate].get("_inlined") or {}).items():
                 self.inlined[("cli::" if crate == "bin" else "") + fn] = cs
+        # constant-trip loops are written out (sa/unroll.py)
+        self.unrolled = {}
+        for crate, prog in (("lib", self.lib), ("bin", self.bin)):
+            if not facts[crate].get("_unrolled_done"):
+                facts[crate]["_unrolled"] = unroll.unroll_program(prog)
+                facts[crate]["_unrolled_done"] = True
+            self.unrolled.update(facts[crate].get("_unrolled") or {})
+        # new private structs that merely name a tuple are read as that tuple (sa/destruct.py)
+        self.destructured = {}
+        for crate, prog in (("lib", self.lib), ("bin", self.bin)):
+            if not facts[crate].get("_destructured_done"):
+                facts[crate]["_destructured"] = destruct.destructure(prog, ref.get(crate, {}).get("adts"))
+                facts[crate]["_destructured_done"] = True
+            self.destructured.update(facts[crate].get("_destructured") or {})
+        # a fold written as a loop is read as the fold the reference had (sa/foldform.py)
+        self.folded = {}
+        for crate, prog in (("lib", self.lib), ("bin", self.bin)):
+            if not facts[crate].get("_folded_done"):
+                facts[crate]["_folded"] = foldform.fold_program(prog, ref.get(crate, {}).get("binders", {}))
+                facts[crate]["_folded_done"] = True
+            self.folded.update(facts[crate].get("_folded") or {})
         for crate, prog in (("lib", self.lib), ("bin", self.bin)):
             for fn, m in alpha.normalise_program(prog, ref.get(crate, {}).get("binders", {})).items():
                 self.alpha[("cli::" if crate == "bin" else "") + fn] = m
@@ -99,7 +123,8 @@ DEPENDS = {
             ("c10", ["C10.R5"], "a well-formed tag is parsed whatever its quoted values contain (e.g. the start delimiter)"),
             ("c03", ["C03.R4"], "a quoted value is opaque to the removal decision: the strategy is chosen by attribute *names*")],
     "C11": [("c12", ["C12.R1"], "nothing else is removed: the dedent consumes only blanks in front of the first non-blank")],
-    "C13": [("c02", ["C02.R4"], "whole lines are deleted and nothing else: the byte tables of the line scanners")],
+    "C13": [("c02", ["C02.R4"], "whole lines are deleted and nothing else: the byte tables of the line scanners"),
+            ("c14", ["C14.R8"], "the seam formatters are asked about the seams: removed positions are shifted by what was removed before")],
     "C14": [("c12", ["C12.R4", "C12.R5"], "whitespace changes stay at the borders: head/tail pair indices and sorted block ranges"),
             ("c04", ["C04.R2"], "whitespace changes stay at the borders: formatter ranges exist only at removed positions")],
     "C15": [("c16", ["C16.R5"], "highlighted text equal to the text of the region: nothing rewrites or trims the listed text"),
